@@ -116,6 +116,9 @@ func main() {
 		}()
 		run(c)
 	}()
+	if t, ok := lastChildStderr.Load().(string); ok && t != "" {
+		rep.Notes = append(rep.Notes, "last words of a value driver process on stderr: "+summarize(t, 1200))
+	}
 	if n := crashesNotReproduced.Load(); n > 0 {
 		rep.Notes = append(rep.Notes, fmt.Sprintf("%d operations whose driver process died in a batch ran to an answer when run again alone (the machine, not the code): their second answer is what was compared", n))
 	}
